@@ -85,6 +85,8 @@ def run_one(exe, d, cf, seed):
             extra += "  use mask: true\n"
         if cf["snaps"]:
             extra += "  snapshot time: 2.5e-4 s\n"
+            if cf["first"]:
+                extra += "  first snapshot: %d\n" % cf["first"]
         blocks = ""
         if cf["turb"]:
             blocks += c09.TURB
@@ -101,19 +103,17 @@ def run_one(exe, d, cf, seed):
         per = (False, False, False) if rad else (True, True, True)
         p = rhdparams.rhd_param(d, ncell=(8, 8, 8), nsub=(2, 2, 2), periodic=per, total_time=1.0e-3,
                                 radiation=rad, nphoton=2000, niter=2, seed=seed, dump_every_step=cf["mode"] == "restart",
-                                extra=extra + blocks)
+                                max_backups=cf["maxb"], extra=extra + blocks)
         txt = open(p).read().replace("type: AsciiFile", "type: Gadget").replace("  snapshot time: -1 s\n", "" if cf["snaps"] else "  snapshot time: -1 s\n")
         open(p, "w").write(txt)
         base = "%s --task-based-rhd --params %s --threads %d" % (exe, p, cf["nthr"])
         if cf["mode"] == "restart":
-            cmds.append(base + " --number-of-steps 2")
+            cmds.append(base + " --number-of-steps %d" % (1 + cf["maxb"]))
             cmds.append(base + " --restart %s" % d)
             expect += ["restart.dump"]
         else:
             cmds.append(base)
         expect += ["snap_*.hdf5"]
-        if cf["snaps"]:
-            expect += ["snap_001.hdf5"]
     recs = []
     info = {"cmds": cmds, "expect": expect}
     for i, cmd in enumerate(cmds):
@@ -133,13 +133,20 @@ def run_one(exe, d, cf, seed):
         for pat in expect if last else []:
             if any(glob.glob(os.path.join(d, a)) for a in pat.split("|")):
                 found += 1
-        recs.append({"e": "run", "expect": len(expect) if last else 0})
+        runrec = {"e": "run", "expect": len(expect) if last else 0}
+        if cf["mode"] != "ion":
+            runrec.update({"snapmodel": 1, "first": cf["first"], "fresh": 1 if i == 0 else 0,
+                           "dumpmodel": 1 if (cf["mode"] == "restart" and i == 0) else 0, "maxb": cf["maxb"]})
+        recs.append(runrec)
         for x in ev:
-            if x["e"] in ("run.start", "own.enter", "own.alloc", "own.delete", "run.end"):
+            if x["e"] in ("run.start", "own.enter", "own.alloc", "own.delete", "run.end", "snap.dec", "snap.fin", "fs.open"):
                 recs.append({k: v for k, v in x.items() if k not in ("q", "th")})
             elif x["e"] in ("it.end", "h.end"):
                 recs.append({"e": "work"})
-        recs.append({"e": "exit", "rc": rc, "outputs": found})
+        snaps = sorted(int(re.search(r"snap_(\d+)\.hdf5$", f).group(1)) for f in glob.glob(os.path.join(d, "snap_*.hdf5")))
+        backs = sorted(int(re.search(r"restart\.(\d+)\.back$", f).group(1)) for f in glob.glob(os.path.join(d, "restart.*.back")))
+        recs.append({"e": "exit", "rc": rc, "outputs": found, "snaps": snaps, "backs": backs,
+                     "dump": 1 if os.path.exists(os.path.join(d, "restart.dump")) else 0})
         info["rc%d" % i] = rc
         info["found"] = found
         if rc != 0:
@@ -168,6 +175,13 @@ def run(c):
         else:
             for key in ("live", "ionsurf", "mask", "turb", "snaps"):
                 must.append(rng.choice([x for x in cand if x[key] == 1 and (key != "ionsurf" or x["live"] == 1)]))
+            if mode == "rhd":
+                for fs in (2, 9):
+                    must.append(rng.choice([x for x in cand if x["first"] == fs]))
+            if mode == "restart":
+                for mb in (2, 3):
+                    must.append(rng.choice([x for x in cand if x["maxb"] == mb]))
+                must.append(rng.choice([x for x in cand if x["first"] == 9]))
     seen = set()
     sample = []
     for x in must:
@@ -175,7 +189,7 @@ def run(c):
         if k not in seen:
             seen.add(k)
             sample.append(x)
-    nrun = 16 if tier == "quick" else 300
+    nrun = 24 if tier == "quick" else 300
     rest = [x for x in cfgs if json.dumps(x, sort_keys=True) not in seen]
     sample = sample[:nrun] if tier == "quick" else sample + rng.sample(rest, min(len(rest), nrun - len(sample)))
 
@@ -208,7 +222,7 @@ def run(c):
         recs, info = results[k][1]
         tags = re.findall(r"/\\ bad = (\{[^}]*\})", r.out)
         cf = sample[k]
-        comp = ",".join(sorted(key for key, v in cf.items() if v == 1 and key not in ("nthr",)))
+        comp = ",".join(sorted(key for key, v in cf.items() if v == 1 and key not in ("nthr", "first", "maxb")))
         c.violation("lifecycle:%s:mode=%s:components=%s" % (st, cf["mode"], comp),
                     "run of configuration %s violates Layer A (%s, tags %s): exit %s, outputs found %s of %s" % (
                         cf, st, tags[-1] if tags else "?", [info.get("rc0"), info.get("rc1")], info.get("found"), info["expect"]),
